@@ -9,7 +9,7 @@ def statement_on(P, data, checker_level):
     """C09's own statement on one byte string, on the REAL code, judged by the independent reference reader.
     → None | dict(kind=…, observed=…, expected=…)"""
     r = P.compare_with_reference(data)
-    if r and r['kind'] != 'ctxt-swap':          # ctxt-swap is C08's recorded finding; the bytes returned are present, only mislabelled
+    if r:
         return r
     if not checker_level:
         return None
